@@ -464,6 +464,7 @@ func isStartTLSConn(conn net.Conn) bool {
 //@   ensures err != nil ==> __ghost("tagged") == old(__ghost("tagged")) || __ghost("tagged") == old(__ghost("tagged"))+1
 //@   ensures c.state == old(c.state)
 //@   ensures __called("Conn.acceptLiteral") && !__failed("Conn.acceptLiteral") ==> __called("Copy")
+//@   ensures __called("Decoder.ExpectLiteralReader") && !__failed("Decoder.ExpectLiteralReader") && __resultBool("Decoder.ExpectLiteralReader", 1) ==> __called("Copy")
 //@   ensures err == nil ==> __called("Decoder.ExpectCRLF") && !__failed("Session.Append")
 
 //@ func (c *Conn) handleCopy(tag string, dec *imapwire.Decoder, numKind NumKind) (err error)
